@@ -841,16 +841,23 @@ class Evaluator(object):
         returned = None
         if self.block_diverges(ea['body']):
             rets = [x for x in err_events if x.kind == 'ret']
-            others = [x for x in err_events if x.kind not in ('ret', 'ctor', 'struct') and not (x.kind == 'call' and x.callee in ('Err',))]
-            if len(rets) != 1 or others:
+            if len(rets) != 1:
                 return None
             returned = rets[0].term
-            diverging = True
-        else:
-            others = [x for x in err_events if x.kind not in ('ctor', 'struct') and not (x.kind == 'call' and x.callee in ('Err',))]
+            sub_shown = set(show(t) for t in subterms(returned)) if returned is not None else set()
+            others = [x for x in err_events if x.kind not in ('ret', 'ctor', 'struct') and not (x.kind == 'call' and x.callee in ('Err',))
+                      and not (x.kind == 'call' and show(x.term) in sub_shown)]
             if others:
                 return None
+            diverging = True
+        else:
             returned = ebt
+            inside = set(id(t) for t in subterms(returned)) if returned is not None else set()
+            sub_shown = set(show(t) for t in subterms(returned)) if returned is not None else set()
+            others = [x for x in err_events if x.kind not in ('ctor', 'struct') and not (x.kind == 'call' and x.callee in ('Err',))
+                      and not (x.kind == 'call' and show(x.term) in sub_shown)]
+            if others:
+                return None
             diverging = False
         if returned is None or returned[0] != 'call' or returned[1] != 'Err' or len(returned[2]) != 1:
             return None
@@ -873,6 +880,10 @@ class Evaluator(object):
             t = ('try', subject)
             self.emit('try', t, node, guards, fn, chain)
             return replace(obt, payload_ok, t)
+        unit_ok = oa['pat'].get('k') == 'PTupleStruct' and len(oa['pat'].get('pats', [])) == 1 and oa['pat']['pats'][0].get('k') == 'PTuple' and not oa['pat']['pats'][0].get('pats')
+        if unit_ok and obt[0] == 'call' and obt[1] == 'Ok' and len(obt[2]) == 1 and obt[2][0] in (('unit',), ('tup', ())) and subject is not sc:
+            # match r { Ok(()) => Ok(()), Err(e) => Err(g(e)) }   ==   r.map_err(g)
+            return subject
         if obt == payload_ok and node['sp'] in getattr(self, 'tail_sps', ()):
             # in tail position: match r { Ok(v) => v, Err(e) => Err(g(e)) }   ==   r.map_err(g)?   (v is itself the result)
             t = ('try', subject)
